@@ -377,10 +377,20 @@ fn bufwriter_pending(b: &BufWriter<DynW>) -> usize {
     init - progress
 }
 
-/// `BufWriter<DynW>` has no accessor for the inner writer: read `got.len()` through its Debug
-/// representation is not possible, so the inner length is tracked in a thread-local by `SW`/`Vec`.
+// `BufWriter<DynW>` has no accessor for the inner writer, so the number of bytes that reached the
+// base writer is tracked in a thread-local by the `SW`/`Vec` arms.
 thread_local! {
     static INNER_LEN: RefCell<usize> = const { RefCell::new(0) };
+    /// bytes sitting in the (single) `BufWriter` layer after its last call
+    static PENDING: RefCell<usize> = const { RefCell::new(0) };
+}
+
+fn note_pending(b: &BufWriter<DynW>) {
+    PENDING.with(|p| *p.borrow_mut() = bufwriter_pending(b));
+}
+
+fn in_pipeline() -> usize {
+    INNER_LEN.with(|l| *l.borrow()) + PENDING.with(|p| *p.borrow())
 }
 
 impl AsyncWrite for DynW {
@@ -403,6 +413,7 @@ impl AsyncWrite for DynW {
                 let before = INNER_LEN.with(|l| *l.borrow()) + bufwriter_pending(b);
                 let n = buf.as_init().len();
                 let r = Box::pin(b.write(buf)).await;
+                note_pending(b);
                 let after = INNER_LEN.with(|l| *l.borrow()) + bufwriter_pending(b);
                 if r.0.is_err() && after > before {
                     ERR_AFTER_BUFFERING.with(|v| {
@@ -437,6 +448,7 @@ impl AsyncWrite for DynW {
             DynW::Buf(b, _) => {
                 let before = INNER_LEN.with(|l| *l.borrow()) + bufwriter_pending(b);
                 let r = Box::pin(b.write_vectored(buf)).await;
+                note_pending(b);
                 let after = INNER_LEN.with(|l| *l.borrow()) + bufwriter_pending(b);
                 if r.0.is_err() && after > before {
                     ERR_AFTER_BUFFERING.with(|v| {
@@ -460,7 +472,11 @@ impl AsyncWrite for DynW {
             DynW::SM(s, ..) => s.flush().await,
             DynW::CV(c) => c.flush().await,
             DynW::CA(c) => c.flush().await,
-            DynW::Buf(b, _) => Box::pin(b.flush()).await,
+            DynW::Buf(b, _) => {
+                let r = Box::pin(b.flush()).await;
+                note_pending(b);
+                r
+            }
             DynW::Half(h, _) => Box::pin(h.flush()).await,
         }
     }
@@ -472,7 +488,11 @@ impl AsyncWrite for DynW {
             DynW::SM(s, ..) => s.shutdown().await,
             DynW::CV(c) => c.shutdown().await,
             DynW::CA(c) => c.shutdown().await,
-            DynW::Buf(b, _) => Box::pin(b.shutdown()).await,
+            DynW::Buf(b, _) => {
+                let r = Box::pin(b.shutdown()).await;
+                note_pending(b);
+                r
+            }
             DynW::Half(h, _) => Box::pin(h.shutdown()).await,
         }
     }
@@ -513,6 +533,7 @@ impl DynW {
             _ => panic!("writer base {base}"),
         };
         INNER_LEN.with(|l| *l.borrow_mut() = w.below_len().unwrap_or(0));
+        PENDING.with(|p| *p.borrow_mut() = 0);
         for wr in parts[..parts.len() - 1].iter().rev() {
             let f: Vec<&str> = wr.split(':').collect();
             w = match f[0] {
@@ -1012,6 +1033,8 @@ fn exec_bseq(w: &[&str], line: &str, ex: &mut Exec) -> String {
     let mut delivered: Vec<u8> = vec![];
     let mut r = Some(DynR::parse(rspec));
     let mut lent: Vec<u8> = vec![];
+    // `Take::consume` clamps the amount to its remaining limit: shadow of the outermost limit
+    let mut limit: Option<u64> = rspec.split('/').next().and_then(|p| p.strip_prefix("take:")).map(|l| l.parse().unwrap());
     for st in &steps {
         let Some(rd) = r.as_mut() else {
             outs.push("-".into());
@@ -1044,10 +1067,24 @@ fn exec_bseq(w: &[&str], line: &str, ex: &mut Exec) -> String {
                 match (bytes, consumed) {
                     (Some(b), None) => lent = b,
                     (None, Some(n)) => {
-                        delivered.extend_from_slice(&lent[..n.min(lent.len())]);
-                        lent = lent[n.min(lent.len())..].to_vec();
+                        let n = limit.map_or(n, |l| (n as u64).min(l) as usize);
+                        if let Some(l) = limit.as_mut() {
+                            *l -= n as u64;
+                        }
+                        let known = n.min(lent.len());
+                        delivered.extend_from_slice(&lent[..known]);
+                        lent = lent[known..].to_vec();
+                        // consume after a `read` discards buffered bytes nobody looked at: by FIFO
+                        // order they are the next stream bytes (the count check below stays exact)
+                        for _ in known..n {
+                            let next = script_info(rspec).and_then(|i| i.stream.get(delivered.len()).copied());
+                            delivered.push(next.unwrap_or(0));
+                        }
                     }
                     (Some(b), Some(_)) => {
+                        if let Some(l) = limit.as_mut() {
+                            *l -= b.len() as u64;
+                        }
                         delivered.extend_from_slice(&b);
                         lent.clear();
                     }
@@ -1107,6 +1144,7 @@ fn run_wseq(wspec: &str, steps: &[String]) -> WrRun {
         };
         let kind = &st[..1];
         let arg = &st[1..];
+        let before = in_pipeline();
         let res = catch(|| {
             futures_executor::block_on(async {
                 match kind {
@@ -1145,9 +1183,11 @@ fn run_wseq(wspec: &str, steps: &[String]) -> WrRun {
                 flushed = (kind == "f" || kind == "s") && text == "ok";
                 match n {
                     Some(usize::MAX) => {
-                        // failed write_all: an unknown prefix of data was accepted
+                        // failed write_all: a prefix of data was accepted; its length is what entered
+                        // the pipeline (base writer + buffer) during the call
                         accepted = None;
-                        envelope.extend_from_slice(&data);
+                        let k = (in_pipeline() - before.min(in_pipeline())).min(data.len());
+                        envelope.extend_from_slice(&data[..k]);
                     }
                     Some(n) => {
                         if let Some(a) = accepted.as_mut() {
@@ -1364,7 +1404,13 @@ fn exec_copy(w: &[&str], line: &str, ex: &mut Exec) -> String {
                         let f13b = ERR_AFTER_BUFFERING.with(|v| !v.borrow().is_empty());
                         if res2 != res || blur_script_left(&rs2) != blur_script_left(&rs) || blur_script_left(&ws2) != blur_script_left(&ws) {
                             ex.fail(
-                                if f13b { "F13:bufwriter-err-after-buffering" } else { "C11:intr-transparent" },
+                                if f13b {
+                                    "F13:bufwriter-err-after-buffering"
+                                } else if res == "intr" {
+                                    "F16:copy-flush-interrupted"
+                                } else {
+                                    "C11:intr-transparent"
+                                },
                                 format!("{line}: {res} | {rs} | {ws} but without the Interrupted entries {res2} | {rs2} | {ws2}"),
                             );
                         }
@@ -1595,11 +1641,20 @@ fn gen_case(rng: &mut Rng, i: usize) -> Case {
             let want = if rng.chance(2, 3) { rng.below(payload.len() as u64 + 1) as usize } else { payload.len() + 2 };
             format!("rx {} {}", gen_reader(rng, &payload, honest), gen_dst(rng, want))
         }
-        3..=5 => format!("re {} {}", gen_reader(rng, &payload, honest), gen_dst(rng, rng.below(40) as usize)),
+        3..=5 => {
+            let want = rng.below(40) as usize;
+            format!("re {} {}", gen_reader(rng, &payload, honest), gen_dst(rng, want))
+        }
         6 => format!("ap {} {}", gen_reader(rng, &payload, honest), gen_dst(rng, payload.len())),
         7 => format!("rd {} {}", gen_reader(rng, &payload, honest), gen_dst(rng, payload.len())),
-        8 => format!("rv {} {}", gen_reader(rng, &payload, honest), gen_members(rng, payload.len(), rng.chance(1, 6))),
-        9 | 10 => format!("rvx {} {}", gen_reader(rng, &payload, honest), gen_members(rng, payload.len(), rng.chance(1, 6))),
+        8 => {
+            let np = rng.chance(1, 6);
+            format!("rv {} {}", gen_reader(rng, &payload, honest), gen_members(rng, payload.len(), np))
+        }
+        9 | 10 => {
+            let np = rng.chance(1, 6);
+            format!("rvx {} {}", gen_reader(rng, &payload, honest), gen_members(rng, payload.len(), np))
+        }
         11 => {
             // a buffered reader on top (possibly under a take)
             let inner = gen_reader(rng, &payload, honest);
